@@ -229,6 +229,70 @@ func checkC18(c *Ctx) (string, []string) {
 		c.Check(got == want, "C18.node-function", K+g, token.NoPos, g+" = "+want, fmt.Sprintf("%s is initialised to %s, GP uses %s", g, got, want))
 	}
 
+	// the constant-depth leaf list handed on by M and Jx is C(v) in full: every slot of the converted list is filled
+	// from the corresponding slot of C's result (the padding slots are zero *hashes*, not absent entries — N reads an
+	// absent head as "empty", which is a different tree for a padded subtree of two or more slots)
+	c.Rule("C18.padded-leaves", "in M and Jx the list handed to N / T has as many filled slots as C(v) has entries: the conversion loop runs over the whole result of C (evaluated for |v| = 3, 5, 6, 9 with |C(v)| = 4, 8, 8, 16)", 2)
+	for _, name := range []string{"M", "Jx"} {
+		f := c.Fn(mtPkg, name)
+		if f == nil {
+			continue
+		}
+		var cCall *ssa.Call
+		allInstrs(f, func(in ssa.Instruction) {
+			if call, ok := in.(*ssa.Call); ok && call.Call.StaticCallee() != nil && call.Call.StaticCallee().Name() == "C" {
+				cCall = call
+			}
+		})
+		if cCall == nil {
+			c.Bad("C18.padded-leaves", mtPkg+"."+name, f.Pos(), "no call of the constant-depth leaf function C")
+			continue
+		}
+		bad := ""
+		for _, sz := range [][2]int64{{3, 4}, {5, 8}, {6, 8}, {9, 16}} {
+			stores := map[int64]bool{}
+			var mk *ssa.MakeSlice
+			env0 := func(s string) (int64, bool) { return 0, false }
+			_ = env0
+			_, ok := runWithAtomsEnv(f, shapeOpts, func(s string) (int64, bool) {
+				switch {
+				case s == "len(p0)":
+					return sz[0], true
+				case strings.HasPrefix(s, "len(") && strings.Contains(s, ".C(p0"):
+					return sz[1], true
+				}
+				return 0, false
+			}, func(in ssa.Instruction, env intEnv) {
+				st, isSt := in.(*ssa.Store)
+				if !isSt {
+					return
+				}
+				ia, isIA := st.Addr.(*ssa.IndexAddr)
+				if !isIA {
+					return
+				}
+				m, isMk := stripConv(ia.X).(*ssa.MakeSlice)
+				if !isMk || !strings.Contains(typeStr(m.Type()), "ByteSequence") {
+					return
+				}
+				mk = m
+				if k, okk := evalInt(ia.Index, env, 0); okk {
+					stores[k] = true
+				}
+			})
+			_ = ok
+			if mk == nil {
+				// built by append or by a helper: the rule cannot count slots — accepted when the list is each[C[*]…] on the robust view
+				continue
+			}
+			if int64(len(stores)) != sz[1] {
+				bad = fmt.Sprintf("|v| = %d: %d of the %d slots of the list handed on are filled (C(v) has %d entries; unfilled padding slots are read as an empty subtree)", sz[0], len(stores), sz[1], sz[1])
+				break
+			}
+		}
+		c.Check(bad == "", "C18.padded-leaves", mtPkg+"."+name, f.Pos(), "every slot of the converted list is filled from C(v)", bad)
+	}
+
 	c.Rule("C18.paging", "Jx takes the trace of leaf i·2^x (mod 2^32) over the constant-depth leaves C(v) and keeps max(0, ⌈log2 max(1,|v|)⌉ − x) entries; Lx hashes exactly the leaves [i·2^x, min(i·2^x + 2^x, |v|)) with the $leaf prefix. The index and the count are decided by evaluating the expressions over x, i and |v|", 5)
 	{
 		f, o := fn["Jx"], optsFor(fn["Jx"])
